@@ -2,6 +2,8 @@ from __future__ import annotations
 
 from typing import TYPE_CHECKING
 
+import numpy as np
+
 from ._base import BasicAction
 
 if TYPE_CHECKING:
@@ -76,7 +78,14 @@ class AddNode(BasicAction):
         """Invert the action to delete nodes instead. Only the pixels that this action
         painted are cleared again (the label may also be on pixels that were there
         before, e.g. an unselected detection)"""
-        return DeleteNode(self.tracks, self.node, pixels=self.pixels)
+        pixels = self.pixels
+        if pixels is None and self.tracks.segmentation is not None:
+            # nothing was painted: nothing is cleared (DeleteNode would otherwise look up
+            # and clear every pixel that carries the label)
+            pixels = tuple(
+                np.zeros(0, dtype=int) for _ in range(self.tracks.segmentation.ndim)
+            )
+        return DeleteNode(self.tracks, self.node, pixels=pixels)
 
     def _apply(self) -> None:
         """Apply the action, and set segmentation if provided in self.pixels"""
